@@ -720,8 +720,12 @@ def gen_classic(rng, tier, seed):
             b, c = [x for x in range(3) if x != a]
             if any(l in links for l in ((a, b), (b, a), (a, c), (c, a))):
                 continue
-            ops.append(['connect2', a, b, c])
-            links += [(a, b), (a, c)]
+            if rng.random() < 0.4:
+                ops.append(['connect2', a, b, c, 'inout'])
+                links += [(a, b), (c, a)]
+            else:
+                ops.append(['connect2', a, b, c])
+                links += [(a, b), (a, c)]
         elif r < 0.46:
             # an outgoing connect to a present peer while another one, to an address nobody has, is failing (page timeout)
             a, b = rng.sample(range(n), 2)
@@ -832,15 +836,16 @@ def run_classic(case):
                 del duals[(a, b)]
                 carried += 1
             elif kind == 'connect2':
-                _, a, b, c = op
+                _, a, b, c = op[:4]
+                # (a -> b, a -> c), or with 'inout': a -> b while c -> a (an incoming connection while an outgoing one is pending)
+                pairs = [(a, b), (c, a)] if len(op) > 4 and op[4] == 'inout' else [(a, b), (a, c)]
                 for ev in cx.conn_events:
                     ev.clear()
-                tb = sim.loop.create_task(world[a].device.connect(world[b].device.public_address, transport=0))
-                tc = sim.loop.create_task(world[a].device.connect(world[c].device.public_address, transport=0))
+                tb, tc = [sim.loop.create_task(world[x].device.connect(world[y].device.public_address, transport=0)) for x, y in pairs]
                 st = sim.loop.drive(lambda: tb.done() and tc.done(), vt_budget=30.0)
-                sim.probe('two_outgoing_classic_connects_in_flight')
+                sim.probe('two_outgoing_classic_connects_in_flight' if pairs[1][0] == a else 'incoming_classic_connection_while_outgoing_pending')
                 bad = False
-                for t, peer in ((tb, b), (tc, c)):
+                for t, (src, peer) in ((tb, pairs[0]), (tc, pairs[1])):
                     if not t.done():
                         sim.violation_once('connect', 'connect-hang:classic:two-in-flight', describe_task(t))
                         t.cancel()
@@ -852,18 +857,18 @@ def run_classic(case):
                     break
                 sim.loop.settle(vt_budget=1.0)
                 sim.loop.advance(0.01)
-                for t, peer in ((tb, b), (tc, c)):
+                for t, (src, peer) in ((tb, pairs[0]), (tc, pairs[1])):
                     conn = t.result()
                     if not bytes(conn.peer_address) == bytes(world[peer].device.public_address):
                         sim.violation_once('wrongconn', 'connect-returned-wrong-connection:classic:two-in-flight', f'connect(N{peer}) returned a connection to {conn.peer_address}')
                         bad = True
                         break
-                    pev = [x for x in cx.conn_events[peer] if bytes(x.peer_address) == bytes(world[a].device.public_address)]
+                    pev = [x for x in cx.conn_events[peer] if bytes(x.peer_address) == bytes(world[src].device.public_address)]
                     if len(pev) != 1:
                         sim.violation_once('pevent', f'peripheral-connection-event:classic:two-in-flight:count={len(pev)}', f'N{peer} saw {[(str(x.peer_address)) for x in cx.conn_events[peer]]}')
                         bad = True
                         break
-                    cx.links[(a, peer)] = [conn, pev[0]]
+                    cx.links[(src, peer)] = [conn, pev[0]]
                     established += 1
                 if bad:
                     break
